@@ -1439,7 +1439,13 @@ class _Interp:
             s = self.eff.summary(init, cx, cls)
             selfname = init.posparams[0] if init.posparams else "self"
             held = s.holds.get(selfname, frozenset())
-            out |= as_container(self.map_back(held, binding))
+            if self.eff.tensor_root is not None and cls.isa(self.eff.tensor_root):
+                # a Tensor is a leaf: what it retains from its arguments is the data array (shared storage) and
+                # immutable index / tag names — it has no member tensors that an element-level mutation could reach
+                held_arrays = frozenset(o for o in held if len(o) > 1 and o[1] in ("data", "params", "parray"))
+                out |= frozenset(("A", o[1]) for o in self.map_back(held_arrays, binding) if o[0] in ("P", "T", "E", "A") and len(o) > 1)
+            else:
+                out |= as_container(self.map_back(held, binding))
             hits = set()
             for p, muts in s.mut.items():
                 if p == selfname:
